@@ -81,46 +81,128 @@ func TestValidatorDecision(t *testing.T) {
 		now := drawNow(rt, 1)
 		v := jwtref.Validator{Now: now, Skew: skew}
 		var kinds []string
-		var ek string
-		v.ExpectedTyp, v.IgnoreTyp, ek = drawExpectation(rt, "typ", fieldValues)
-		kinds = append(kinds, "vtyp="+ek)
-		v.ExpectedIss, v.IgnoreIss, ek = drawExpectation(rt, "iss", fieldValues)
-		kinds = append(kinds, "viss="+ek)
-		v.ExpectedAud, v.IgnoreAud, ek = drawExpectation(rt, "aud", fieldValues)
-		kinds = append(kinds, "vaud="+ek)
-		v.AllowMissingExpiration = rapid.Bool().Draw(rt, "allow_missing_exp")
-		v.ExpectIssuedInThePast = rapid.Bool().Draw(rt, "expect_issued_in_the_past")
+		// Independent draws of every dimension almost always reject on the first rule. So one
+		// dimension (or two, or all) is drawn freely and the others are drawn from the values that
+		// satisfy their rule (edges included): the free dimension then decides.
+		focus := rapid.SampledFrom([]string{"exp", "exp", "nbf", "iat", "typ", "iss", "aud", "none", "all", "two"}).Draw(rt, "focus")
+		second := ""
+		if focus == "two" {
+			focus = rapid.SampledFrom([]string{"exp", "nbf", "iat", "typ", "iss", "aud"}).Draw(rt, "focus1")
+			second = rapid.SampledFrom([]string{"exp", "nbf", "iat", "typ", "iss", "aud"}).Draw(rt, "focus2")
+		}
+		free := func(dim string) bool { return focus == "all" || focus == dim || second == dim }
+		kinds = append(kinds, "focus="+focus)
 
-		// token side
 		var typ *string
-		if rapid.Bool().Draw(rt, "has_typ") {
-			typ = sptr(rapid.SampledFrom(fieldValues).Draw(rt, "typ"))
-		}
 		var payload []member
-		if rapid.Bool().Draw(rt, "has_iss") {
-			payload = append(payload, member{"iss", jstr(rapid.SampledFrom(fieldValues).Draw(rt, "iss"))})
-		}
-		audShape := rapid.SampledFrom([]string{"absent", "absent", "string", "list1", "list2", "list3"}).Draw(rt, "aud_shape")
-		switch audShape {
-		case "string":
-			payload = append(payload, member{"aud", jstr(rapid.SampledFrom(fieldValues).Draw(rt, "aud"))})
-		case "list1", "list2", "list3":
-			n := int(audShape[4] - '0')
-			var l []any
-			for i := 0; i < n; i++ {
-				l = append(l, rapid.SampledFrom(fieldValues).Draw(rt, fmt.Sprintf("aud[%d]", i)))
+		// typ, iss, aud: validator side and token side
+		field := func(dim string) (expected *string, ignore bool, tokenValue *string) {
+			var ek string
+			if free(dim) {
+				expected, ignore, ek = drawExpectation(rt, dim, fieldValues)
+				if rapid.Bool().Draw(rt, "has_"+dim) {
+					tokenValue = sptr(rapid.SampledFrom(fieldValues).Draw(rt, dim))
+				}
+				kinds = append(kinds, "v"+dim+"="+ek)
+				return
 			}
-			payload = append(payload, member{"aud", jtext(l)})
+			switch rapid.IntRange(0, 3).Draw(rt, dim+"_consistent") {
+			case 0: // absent, nothing expected
+				ek = "none"
+			case 1: // ignored, present or not
+				ignore, ek = true, "ignore"
+				if rapid.Bool().Draw(rt, "has_"+dim) {
+					tokenValue = sptr(rapid.SampledFrom(fieldValues).Draw(rt, dim))
+				}
+			default: // expected and equal
+				val := rapid.SampledFrom(fieldValues).Draw(rt, dim)
+				expected, tokenValue, ek = sptr(val), sptr(val), "expected"
+			}
+			kinds = append(kinds, "v"+dim+"="+ek)
+			return
+		}
+		v.ExpectedTyp, v.IgnoreTyp, typ = field("typ")
+		var issValue, audValue *string
+		v.ExpectedIss, v.IgnoreIss, issValue = field("iss")
+		v.ExpectedAud, v.IgnoreAud, audValue = field("aud")
+		if issValue != nil {
+			payload = append(payload, member{"iss", jstr(*issValue)})
+		}
+		if audValue != nil {
+			// the drawn value is one element; the shape and the other elements are drawn on top
+			switch shape := rapid.SampledFrom([]string{"string", "list1", "list2", "list3"}).Draw(rt, "aud_shape"); shape {
+			case "string":
+				payload = append(payload, member{"aud", jstr(*audValue)})
+			default:
+				n := int(shape[4] - '0')
+				at := rapid.IntRange(0, n-1).Draw(rt, "aud_at")
+				var l []any
+				for i := 0; i < n; i++ {
+					if i == at {
+						l = append(l, *audValue)
+					} else {
+						l = append(l, rapid.SampledFrom(fieldValues).Draw(rt, fmt.Sprintf("aud[%d]", i)))
+					}
+				}
+				payload = append(payload, member{"aud", jtext(l)})
+			}
+		}
+		// time claims
+		if free("exp") {
+			v.AllowMissingExpiration = rapid.Bool().Draw(rt, "allow_missing_exp")
+		}
+		if free("iat") {
+			v.ExpectIssuedInThePast = rapid.Bool().Draw(rt, "expect_issued_in_the_past")
+		} else {
+			v.ExpectIssuedInThePast = rapid.IntRange(0, 2).Draw(rt, "expect_issued_in_the_past_consistent") == 0
+		}
+		lo := now.Unix() - int64(skew/time.Second)
+		hi := now.Unix() + int64(skew/time.Second)
+		nonneg := func(x int64) int64 {
+			if x < 0 {
+				return 0
+			}
+			return x
 		}
 		boundary := false
 		for _, name := range []string{"exp", "nbf", "iat"} {
-			if rapid.IntRange(0, 3).Draw(rt, "has_"+name) == 0 {
-				kinds = append(kinds, name+"=absent")
-				continue
+			var sec int64
+			var kind string
+			switch {
+			case free(name) || (name == "iat" && !v.ExpectIssuedInThePast):
+				if rapid.IntRange(0, 3).Draw(rt, "has_"+name) == 0 {
+					kinds = append(kinds, name+"=absent")
+					continue
+				}
+				sec, kind = drawTimeClaim(rt, name, now, skew)
+			case name == "exp":
+				// satisfied: exp > now-skew holds from second lo+1 on whatever the sub-second parts are
+				kind = rapid.SampledFrom([]string{"absent-allowed", "ok-lo+1", "ok-lo+1", "ok-lo+2", "ok-now+1", "ok-hi+1", "ok-max", "ok-far-future"}).Draw(rt, "exp_ok")
+				if kind == "absent-allowed" {
+					v.AllowMissingExpiration = true
+					kinds = append(kinds, "exp="+kind)
+					continue
+				}
+				v.AllowMissingExpiration = rapid.Bool().Draw(rt, "allow_missing_exp")
+				sec = map[string]int64{"ok-lo+1": nonneg(lo + 1), "ok-lo+2": nonneg(lo + 2), "ok-now+1": now.Unix() + 1, "ok-hi+1": hi + 1, "ok-max": jwtref.TimestampMax, "ok-far-future": now.Unix() + 86400*365}[kind]
+				if sec > jwtref.TimestampMax {
+					sec = jwtref.TimestampMax
+				}
+			default:
+				// satisfied: nbf / iat <= now+skew holds up to second hi whatever the sub-second parts are
+				kind = rapid.SampledFrom([]string{"absent", "ok-hi", "ok-hi", "ok-hi-1", "ok-now", "ok-lo", "ok-zero", "ok-far-past"}).Draw(rt, name+"_ok")
+				if kind == "absent" {
+					if name == "iat" { // ExpectIssuedInThePast needs an iat to be satisfied
+						kind = "ok-hi"
+					} else {
+						kinds = append(kinds, name+"=absent")
+						continue
+					}
+				}
+				sec = nonneg(map[string]int64{"ok-hi": hi, "ok-hi-1": hi - 1, "ok-now": now.Unix(), "ok-lo": lo, "ok-zero": 0, "ok-far-past": now.Unix() - 86400*365}[kind])
 			}
-			sec, kind := drawTimeClaim(rt, name, now, skew)
 			kinds = append(kinds, name+"="+kind)
-			if strings.HasPrefix(kind, "lo") || strings.HasPrefix(kind, "hi") || strings.HasPrefix(kind, "now") {
+			if strings.Contains(kind, "lo") || strings.Contains(kind, "hi") || strings.Contains(kind, "now") {
 				boundary = true
 			}
 			payload = append(payload, member{name, fmt.Sprint(sec)})
@@ -155,7 +237,7 @@ func TestValidatorDecision(t *testing.T) {
 		evid.Case(class, nontrivial, fp, func() any {
 			return map[string]any{"key": k.String(), "header": header, "payload": body, "validator": vdesc(v), "placement": strings.Join(kinds, " "), "reference": o.d.Reason, "silent": o.d.Silent}
 		})
-		evid.Add("validator_"+strings.Join(kinds[:3], "_"), 1)
+		evid.Add("validator_"+strings.Join(kinds[:4], "_"), 1)
 	})
 }
 
@@ -274,7 +356,7 @@ func drawManipulation(rt *rapid.T, k *jkey, typ *string, payload []member) manip
 		return manip{kind: kind, token: makeToken(rt, k, k.alg, h, text), note: text}
 	}
 	kinds := []string{
-		"none", "untouched",
+		"untouched",
 		"alg-none", "alg-none-unsigned", "alg-sibling", "alg-sibling-resigned", "alg-cross-family", "alg-hmac-with-public-key", "alg-case", "alg-space", "alg-not-string", "alg-missing", "alg-empty",
 		"kid-absent", "kid-wrong", "kid-not-string", "kid-other-strategy", "kid-case", "kid-padded", "kid-extended", "kid-added-arbitrary",
 		"crit", "typ-not-string", "typ-added", "extra-members", "header-whitespace", "header-member-order", "header-not-object", "header-duplicate", "header-escaped-names",
@@ -283,7 +365,7 @@ func drawManipulation(rt *rapid.T, k *jkey, typ *string, payload []member) manip
 	}
 	kind := rapid.SampledFrom(kinds).Draw(rt, "manipulation")
 	switch kind {
-	case "none", "untouched":
+	case "untouched":
 		return manip{kind: "untouched", token: makeToken(rt, k, k.alg, h, b), note: h}
 	case "alg-none":
 		return withHeader(kind, replaceMember(hdr, "alg", jstr(rapid.SampledFrom([]string{"none", "None", "NONE", "nOnE"}).Draw(rt, "none"))))
@@ -626,13 +708,21 @@ func swapCase(s string) string {
 	return string(b)
 }
 
-// drawPermissive draws base claims and a validator that accepts them (several shapes, so that the
+// drawBase draws base claims and a validator that accepts them (several shapes, so that the
 // manipulations interact with expectations).
 func drawBase(rt *rapid.T) (typ *string, payload []member, v jwtref.Validator) {
+	typ, payload, v, _ = drawBaseOpts(rt)
+	return
+}
+
+// drawBaseOpts is drawBase plus the RawJWTOptions standing for the same token.
+func drawBaseOpts(rt *rapid.T) (typ *string, payload []member, v jwtref.Validator, opts *jwt.RawJWTOptions) {
 	now := drawNow(rt, 601)
+	opts = &jwt.RawJWTOptions{}
 	v = jwtref.Validator{Now: now, Skew: rapid.SampledFrom(wholeSkews).Draw(rt, "skew")}
 	if rapid.Bool().Draw(rt, "has_typ") {
 		typ = sptr(rapid.SampledFrom([]string{"JWT", "at+jwt", ""}).Draw(rt, "typ"))
+		opts.TypeHeader = sptr(*typ)
 		if rapid.Bool().Draw(rt, "expect_typ") {
 			v.ExpectedTyp = sptr(*typ)
 		} else {
@@ -643,6 +733,7 @@ func drawBase(rt *rapid.T) (typ *string, payload []member, v jwtref.Validator) {
 	}
 	if rapid.Bool().Draw(rt, "has_iss") {
 		payload = append(payload, member{"iss", `"issuer"`})
+		opts.Issuer = sptr("issuer")
 		if rapid.Bool().Draw(rt, "expect_iss") {
 			v.ExpectedIss = sptr("issuer")
 		} else {
@@ -652,35 +743,44 @@ func drawBase(rt *rapid.T) (typ *string, payload []member, v jwtref.Validator) {
 	switch rapid.IntRange(0, 2).Draw(rt, "aud_shape") {
 	case 1:
 		payload = append(payload, member{"aud", `"me"`})
+		opts.Audience = sptr("me")
 		v.ExpectedAud = sptr("me")
 	case 2:
 		payload = append(payload, member{"aud", `["other","me"]`})
+		opts.Audiences = []string{"other", "me"}
 		if rapid.Bool().Draw(rt, "expect_aud") {
 			v.ExpectedAud = sptr("me")
 		} else {
 			v.IgnoreAud = true
 		}
 	}
+	at := func(sec int64) *time.Time { t := time.Unix(sec, 0); return &t }
 	if rapid.IntRange(0, 3).Draw(rt, "has_exp") > 0 {
 		exp := now.Unix() + rapid.SampledFrom([]int64{1, 60, 3600}).Draw(rt, "exp_in")
 		if exp > jwtref.TimestampMax {
 			exp = jwtref.TimestampMax
 		}
 		payload = append(payload, member{"exp", fmt.Sprint(exp)})
+		opts.ExpiresAt = at(exp)
 	} else {
 		v.AllowMissingExpiration = true
+		opts.WithoutExpiration = true
 	}
 	if rapid.Bool().Draw(rt, "has_nbf") {
 		payload = append(payload, member{"nbf", fmt.Sprint(now.Unix() - 10)})
+		opts.NotBefore = at(now.Unix() - 10)
 	}
 	if rapid.Bool().Draw(rt, "has_iat") {
 		payload = append(payload, member{"iat", fmt.Sprint(now.Unix() - 20)})
+		opts.IssuedAt = at(now.Unix() - 20)
 		v.ExpectIssuedInThePast = rapid.Bool().Draw(rt, "expect_iat")
 	}
 	if rapid.Bool().Draw(rt, "has_custom") {
-		payload = append(payload, member{"custom", jtext(drawTameValue(rt, "custom", 1))})
+		val := drawTameValue(rt, "custom", 1)
+		payload = append(payload, member{"custom", jtext(val)})
+		opts.CustomClaims = map[string]any{"custom": val}
 	}
-	return typ, payload, v
+	return typ, payload, v, opts
 }
 
 // TestHeaderManipulation: hand-built tokens (reference signer, the keyset's own key material) with
